@@ -994,6 +994,10 @@ orc_x86_insn_output_modrm (OrcCompiler *const p, const OrcX86Insn *const xinsn)
       *p->codeptr++ = xinsn->opcode->code2;
       break;
     case ORC_X86_INSN_TYPE_STACK:
+      /* r8-r15 need REX.B, otherwise this pushes/pops rax-rdi */
+      if (p->is_64bit && (xinsn->dest & 8)) {
+        *p->codeptr++ = 0x41;
+      }
       *p->codeptr++ = xinsn->opcode->code + (xinsn->dest&0x7);
       break;
     case ORC_X86_INSN_TYPE_BRANCH:
